@@ -42,6 +42,10 @@ fn programs() -> Vec<(&'static str, ReqPlan)> {
         ("read-to-end", ReqPlan { read: ReadPlan::ReadToEnd, finish: Finish::Respond(RespSpec::ok(3)) }),
         ("drop-without-body", ReqPlan { read: ReadPlan::None, finish: Finish::Drop }),
         ("ask-then-raw-writer", ReqPlan { read: rd(1), finish: Finish::Writer { parts: raw_response_parts(1, 4, 2), flush: true } }),
+        // every way of finishing WITHOUT ever asking for the body
+        ("raw-writer-without-body", ReqPlan { read: ReadPlan::None, finish: Finish::Writer { parts: raw_response_parts(1, 4, 2), flush: true } }),
+        ("raw-writer-unused-without-body", ReqPlan { read: ReadPlan::None, finish: Finish::Writer { parts: vec![], flush: false } }),
+        ("panic-without-body", ReqPlan { read: ReadPlan::None, finish: Finish::Panic }),
     ]
 }
 
@@ -171,6 +175,9 @@ fn class_of(sc: &Scenario) -> String {
     )
 }
 
+/// clauses of the shared feature product (props/product.rs) that belong to this property
+const PRODUCT_CLAUSES: &[&str] = &["continue-count"];
+
 impl Check for C18 {
     fn id(&self) -> &'static str {
         "C18"
@@ -179,27 +186,37 @@ impl Check for C18 {
         "exploration"
     }
     fn n_items(&self, tier: Tier) -> u64 {
-        cases(tier).len() as u64
+        cases(tier).len() as u64 + crate::props::product::n_items(tier)
     }
     fn chunk(&self, _tier: Tier) -> u64 {
         16
     }
     fn run_item(&self, idx: u64, tier: Tier, acc: &mut Acc) {
+        let base = cases(tier).len() as u64;
+        if idx >= base {
+            crate::props::product::run_item(idx - base, tier, acc, PRODUCT_CLAUSES);
+            return;
+        }
         let c = &cases(tier)[idx as usize];
         let class = c.class.clone();
         check_scenario(&c.sc, acc, &JudgeOpts::default(), c.nontrivial, &|f, _| std_key(f, &class), &|_| vec![]);
     }
     fn rule(&self, tier: Tier) -> String {
-        format!(
+        let own = format!(
             "Expect {{absent, 100-continue, 100-Continue, 100-CONTINUE}} x body length {:?} (Content-Length and chunked) x application program {:?}+partial-read x client {{sends the body immediately, withholds the body until it has parsed an interim 100 response (reactive client)}} x position 1..2 in a pipeline, and (lengths 5 and 1025, Content-Length) after a history of 64 / 100 / 1024 (thorough: 19 lengths from 63 to 4097) answered exchanges; {} conversations; oracle: exactly one interim 100 iff the program asks for the body of an expecting request, placed after the predecessor's final response and before its own; the withheld body is then read in full; none otherwise; non-trivial = expecting request whose body is asked for or withheld",
             if full(tier) { vec![0, 5, 1024, 1025, 3000] } else { vec![0, 5, 1025] },
             programs().iter().map(|p| p.0).collect::<Vec<_>>(), cases(tier).len()
-        )
+        );
+        format!("{} || {} {:?}", own, crate::props::product::RULE, PRODUCT_CLAUSES)
     }
     fn assumptions(&self) -> Vec<String> {
         vec!["a withholding client that receives a final response without having seen a 100 closes its sending side; what happens to body bytes sent after such an answer is not judged".into()]
     }
     fn replay(&self, replay: &Value, acc: &mut Acc) {
+        if crate::props::product::is_product_replay(replay) {
+            crate::props::product::replay(replay, acc, PRODUCT_CLAUSES);
+            return;
+        }
         let sc = scenario_from_json(&replay["scenario"]);
         let class = class_of(&sc);
         replay_scenario(replay, acc, &JudgeOpts::default(), &|f, _| std_key(f, &class), &|_| vec![]);
